@@ -188,3 +188,48 @@ Example ok_iff_nonvacuous :
   update_ok_b (st_msk s) = true /\ rights_known (st_msk s) [[]; [0]] = true /\ rights_known (st_msk s) [[1]] = false /\
   update_ok_b (st_msk (fst (step fixed (fst (step fixed s (OAddAttr sD sb false None))) (ODisable sD sb)))) = false.
 Proof. vm_compute. repeat split; reflexivity. Qed.
+
+(* ---------------------------------------------------------------- I5: a user key has at most one chain per right *)
+Lemma flat_map_keys_NoDup {A B} (f : rightk * A -> list (rightk * B)) (l : list (rightk * A)) :
+  (forall r a x, In x (f (r, a)) -> fst x = r) -> (forall ra, (length (f ra) <= 1)%nat) ->
+  NoDup (map fst l) -> NoDup (map fst (flat_map f l)).
+Proof.
+  intros Hk Hl. induction l as [|[r a] l IH]; cbn; intros Hnd; [constructor|]. inversion Hnd as [|? ? Hr Hnd']; subst.
+  rewrite map_app. apply NoDup_app_intro; [|apply IH; exact Hnd'|].
+  - specialize (Hl (r, a)). destruct (f (r, a)) as [|x [|y t]]; cbn in *; [constructor|constructor; [intros []|constructor]|lia].
+  - intros k Hk1 Hk2. apply in_map_iff in Hk1. destruct Hk1 as (x & <- & Hx). rewrite (Hk r a x Hx) in Hk2. apply Hr.
+    apply in_map_iff in Hk2. destruct Hk2 as (y & Ey & Hy). apply in_flat_map in Hy. destruct Hy as ([r' a'] & Hin & Hy).
+    rewrite (Hk r' a' y Hy) in Ey. subst r'. apply in_map_iff. exists (r, a'). split; [reflexivity|exact Hin].
+Qed.
+
+Theorem usk_rights_unique s : reach s -> forall u, In u (st_usks s) -> NoDup (map fst (u_chains u)).
+Proof.
+  apply (reach_ind (fun s => forall u, In u (st_usks s) -> NoDup (map fst (u_chains u)))); [intros u []|].
+  intros s0 o _ IH. destruct o; cbn [step]; unfold edit;
+    try (match goal with |- context [match ?r with Ok _ => _ | _ => _ end] => destruct r end; cbn; exact IH).
+  - destruct (update_msk fixed empty_msk 0) as [[r m'] c]. cbn. intros u [].
+  - destruct (update_msk fixed (st_msk s0) (st_ctr s0)) as [[[|] m'] c]; cbn; exact IH.
+  - exact IH.
+  - destruct (usk_rights fixed (m_st (st_msk s0)) p) as [rs|]; [|exact IH]. destruct (rekey fixed (st_msk s0) rs (st_ctr s0)) as [[|] c]; cbn; exact IH.
+  - destruct (usk_rights fixed (m_st (st_msk s0)) p) as [rs|]; cbn; exact IH.
+  - destruct (usk_rights fixed (m_st (st_msk s0)) p) as [rs|] eqn:Eu; [|exact IH]. unfold keygen.
+    destruct (latest_all (st_msk s0) rs) as [chs|] eqn:El; [|cbn; exact IH]. cbn. intros u Hu. apply in_app_iff in Hu.
+    destruct Hu as [Hu|[<-|[]]]; [apply IH; exact Hu|]. cbn. destruct (latest_all_spec _ _ _ El) as [-> _]. eapply usk_rights_NoDup. exact Eu.
+  - destruct (nth_error (st_usks s0) k) as [u|] eqn:En; [|exact IH]. pose proof (IH u (nth_error_In _ _ En)) as Hu.
+    destruct (refresh fixed (st_msk s0) u keep) as [r u'] eqn:Er. cbn. intros u0 Hu0. apply set_nth_In in Hu0. destruct Hu0 as [->|Hu0]; [|apply IH; exact Hu0].
+    assert (Hu' : u' = snd (refresh fixed (st_msk s0) u keep)) by (rewrite Er; reflexivity). rewrite refresh_fixed in Hu'.
+    destruct (u_id u) as [id|]; [|subst u'; exact Hu]. destruct (negb _); [subst u'; exact Hu|]. cbn in Hu'. subst u'. cbn [u_chains].
+    destruct keep; [unfold refresh_keep_chains|unfold refresh_nokeep_chains]; apply flat_map_keys_NoDup; try exact Hu.
+    + intros r0 a x Hx. destruct (rlookup r0 (m_secrets (st_msk s0))) as [mch|]; [|destruct Hx]. destruct (refresh_chain fixed mch a); [|destruct Hx].
+      destruct Hx as [<-|[]]. reflexivity.
+    + intros [r0 a]. destruct (rlookup r0 (m_secrets (st_msk s0))) as [mch|]; [|cbn; lia]. destruct (refresh_chain fixed mch a); cbn; lia.
+    + intros r0 a x Hx. destruct (rlookup r0 (m_secrets (st_msk s0))) as [[|[fl sk] older]|]; try destruct Hx as [<-|[]]; try destruct Hx. reflexivity.
+    + intros [r0 a]. destruct (rlookup r0 (m_secrets (st_msk s0))) as [[|[fl sk] older]|]; cbn; lia.
+  - destruct (nth_error (st_mpks s0) j) as [pk|]; [|exact IH]. destruct (enc_rights fixed (p_st pk) p) as [rs|]; [|exact IH].
+    destruct (encaps_rights pk rs (st_ctr s0)) as [[x|] c]; cbn; exact IH.
+  - destruct (nth_error (st_usks s0) k) as [u|]; [|exact IH]. destruct (nth_error (st_encs s0) e); [|exact IH]. destruct (u_chains u); exact IH.
+  - destruct (nth_error (st_mpks s0) j) as [pk|]; [|exact IH]. destruct (nth_error (st_encs s0) e) as [x|]; [|exact IH].
+    destruct (recaps fixed (st_msk s0) pk x (st_ctr s0)) as [[x'|] c]; cbn; exact IH.
+  - exact IH.
+Qed.
+Print Assumptions usk_rights_unique.
